@@ -441,7 +441,8 @@ pub fn build_project(raw: &Raw) -> Project {
             let kind = if forward {
                 let prefix = match d.pick(4) {
                     0 | 1 => None,
-                    2 => Some("p-".to_string()),
+                    // the prefix is an identifier too: `_` and `-` are the same character in it
+                    2 => Some(if d.chance(35) { "p_".to_string() } else { "p-".to_string() }),
                     _ => Some("q-".to_string()),
                 };
                 LoadKind::Forward { prefix, filter: Filter::None }
@@ -470,24 +471,36 @@ pub fn build_project(raw: &Raw) -> Project {
             loads.push(Load { kind, url, with: vec![] });
             tg.push(if builtin { None } else { Some(j) });
         }
-        // own members
-        let mut vars = vec![VarDecl { name: format!("v{}", tag), value: Expr::Lit(0), default: d.chance(50) }];
-        if d.chance(60) {
-            vars.push(VarDecl { name: format!("w{}", tag), value: Expr::Lit(0), default: d.chance(50) });
+        // own members; some modules have no member at all of a kind (a forwarding module whose targets
+        // contribute nothing of that kind still has to hide its own private members)
+        let bare_vars = !is_entry && d.chance(22);
+        let bare_fns = !is_entry && d.chance(22);
+        let bare_mixins = !is_entry && d.chance(22);
+        let mut vars = vec![];
+        if !bare_vars {
+            vars.push(VarDecl { name: format!("v{}", tag), value: Expr::Lit(0), default: d.chance(50) });
+            if d.chance(60) {
+                vars.push(VarDecl { name: format!("w{}", tag), value: Expr::Lit(0), default: d.chance(50) });
+            }
+            if d.chance(50) {
+                vars.push(VarDecl { name: "-q".to_string(), value: Expr::Lit(0), default: false });
+            }
         }
-        if d.chance(50) {
-            vars.push(VarDecl { name: "-q".to_string(), value: Expr::Lit(0), default: false });
-        }
-        let mut fns = vec![FnDecl { name: format!("f{}", tag), body: Expr::Param }];
-        if d.chance(35) {
-            fns.push(FnDecl { name: "-g".to_string(), body: Expr::Param });
+        let mut fns = vec![];
+        if !bare_fns {
+            fns.push(FnDecl { name: format!("f{}", tag), body: Expr::Param });
+            if d.chance(35) {
+                fns.push(FnDecl { name: "-g".to_string(), body: Expr::Param });
+            }
         }
         let mut mixins = vec![];
-        if d.chance(70) {
-            mixins.push(MixinDecl { name: format!("mx{}", tag), body: vec![] });
-        }
-        if d.chance(25) {
-            mixins.push(MixinDecl { name: "-pm".to_string(), body: vec![] });
+        if !bare_mixins {
+            if d.chance(70) {
+                mixins.push(MixinDecl { name: format!("mx{}", tag), body: vec![] });
+            }
+            if d.chance(25) {
+                mixins.push(MixinDecl { name: "-pm".to_string(), body: vec![] });
+            }
         }
         mods.push(Module { file, loads, vars, fns, mixins, body: vec![] });
         targets.push(tg);
